@@ -93,13 +93,13 @@ type writeRec struct {
 }
 
 type scriptConn struct {
-	now    func() int64
-	in     chan []byte
-	closed chan struct{}
-	once   sync.Once
-	mu     sync.Mutex
-	writes []writeRec
-	probe  []writeRec // writes made while probing (not part of the call under test)
+	now     func() int64
+	in      chan []byte
+	closed  chan struct{}
+	once    sync.Once
+	mu      sync.Mutex
+	writes  []writeRec
+	probe   []writeRec // writes made while probing (not part of the call under test)
 	probing bool
 }
 
@@ -257,11 +257,12 @@ func tagOf6(m *dhcpv6.Message) (class byte, idx int, ok bool) {
 }
 
 // datagramFor builds the wire bytes of one scripted arrival.
-//   acc/rej : well-formed response for xid x (class A / R)
-//   ix : same but another transaction id      ig : undecodable bytes
-//   io : BOOTREQUEST (v4; v6: a relay message, which MessageFromBytes refuses)
-//   ih : another hardware address (v4; v6 has no such filter: wrong xid)
-//   ie : empty datagram
+//
+//	acc/rej : well-formed response for xid x (class A / R)
+//	ix : same but another transaction id      ig : undecodable bytes
+//	io : BOOTREQUEST (v4; v6: a relay message, which MessageFromBytes refuses)
+//	ih : another hardware address (v4; v6 has no such filter: wrong xid)
+//	ie : empty datagram
 func datagramFor(v6 bool, kind string, x uint32, idx int) []byte {
 	if v6 {
 		switch kind {
